@@ -438,6 +438,20 @@ func (f *Frame) bindLoopSpecs() {
 			}
 		}
 	}
+	// loops whose key changed (e.g. a range loop rewritten as an index loop): remaining specs bind in source order
+	for _, li := range lis {
+		if li.spec != nil {
+			continue
+		}
+		for _, ls := range f.con.Loops {
+			if !ls.Used {
+				li.spec = ls
+				ls.Used = true
+				f.vc.notes = append(f.vc.notes, fmt.Sprintf("loop clause %q bound by position to loop %v", ls.Key, li.header))
+				break
+			}
+		}
+	}
 }
 
 // modifiedCells statically over-approximates the cells a loop body may write. ok=false: unknown (havoc all).
@@ -637,11 +651,10 @@ func (f *Frame) rootsOfSliceArg(v ssa.Value, mod map[string]bool) bool {
 func (f *Frame) loopHeader(li *loopInfo) {
 	vc := f.vc
 	fnKey := vc.P.fnKey(f.fn)
-	if li.spec == nil && f.depth == 0 {
-		vc.errf("%s: loop %v has no invariant (keys: %s)", fnKey, li.header, strings.Join(li.keys(), " | "))
-	}
-	if li.spec == nil && f.depth > 0 {
-		vc.errf("%s: inlined callee contains a loop", fnKey)
+	if li.spec == nil {
+		// no invariant: the loop is abstracted by havocking everything it may write (sound; usually too weak to
+		// prove anything about what the loop computes, which then shows up as an undischarged obligation)
+		vc.notes = append(vc.notes, fmt.Sprintf("%s: loop %v has no invariant (keys: %s): abstracted by havoc", fnKey, li.header, strings.Join(li.keys(), " | ")))
 	}
 	for _, ins := range li.header.Instrs {
 		if _, ok := ins.(*ssa.Phi); ok {
@@ -846,7 +859,10 @@ func (f *Frame) exec(ins ssa.Instruction) {
 		f.setCell(f.cur, key, as, sx("store", arr, r.t, f.emptyMap(x.Type())))
 		f.vals[x] = r
 	case *ssa.MakeChan:
-		f.vals[x] = f.newRef("chan", x.Type())
+		ch := f.newRef("chan", x.Type())
+		cl := f.getCell(f.cur, "ghost:closed", "(Array Int Bool)")
+		vc.assume(not(sx("select", cl, ch.t))) // a new channel is open
+		f.vals[x] = ch
 	case *ssa.MakeSlice:
 		f.execMakeSlice(x)
 	case *ssa.Slice:
@@ -884,6 +900,8 @@ func (f *Frame) exec(ins ssa.Instruction) {
 		f.execSelect(x)
 	case *ssa.Send:
 		f.effect("send", x.Pos())
+		ns := f.getCell(f.cur, "ghost:nsent", SInt)
+		f.setCell(f.cur, "ghost:nsent", SInt, sx("+", ns, "1"))
 	case *ssa.Go:
 		f.effect("go", x.Pos())
 	case *ssa.Defer:
@@ -1478,12 +1496,27 @@ func (f *Frame) execSelect(x *ssa.Select) {
 	}
 	vc.assume(and(sx("<=", lo, idx), sx("<", idx, fmt.Sprint(n))))
 	tup := Tuple{Val{idx, SInt, types.Typ[types.Int]}, vc.freshVal("recvok", types.Typ[types.Bool])}
-	for _, s := range x.States {
+	closed := f.getCell(f.cur, "ghost:closed", "(Array Int Bool)")
+	nsent := f.getCell(f.cur, "ghost:nsent", SInt)
+	sentTerm := nsent
+	var anyClosedRecv []string
+	for i, s := range x.States {
+		ch := f.sval(s.Chan)
 		if s.Dir == types.RecvOnly {
 			et := s.Chan.Type().Underlying().(*types.Chan).Elem()
 			tup = append(tup, vc.freshVal("recv", et))
+			// a receive from a closed channel is always ready
+			anyClosedRecv = append(anyClosedRecv, and(sx("distinct", ch.t, "0"), sx("select", closed, ch.t)))
+		} else {
+			// choosing a send case performs the send (ghost counter of sends)
+			sentTerm = ite(eq(idx, fmt.Sprint(i)), sx("+", nsent, "1"), sentTerm)
 		}
 	}
+	if !x.Blocking && len(anyClosedRecv) > 0 {
+		// Go runs `default` only when no case is ready
+		vc.assume(implies(or(anyClosedRecv...), sx("distinct", idx, "(- 1)")))
+	}
+	f.setCell(f.cur, "ghost:nsent", SInt, sentTerm)
 	f.vals[x] = tup
 }
 
